@@ -1211,7 +1211,9 @@ def reuse_case(draw, shard, tier):
         lo = draw(st.integers(0, max(0, n - 9)))
         hi = draw(st.integers(lo + 4, n))
         ops.append(dict(lo=lo, hi=hi) if draw(st.integers(0, 2)) else dict(lo=0, hi=n))
-    case["ops"] = [dict(lo=0, hi=n)] + ops + [dict(lo=0, hi=n)]
+        # one iteration in three runs the other way in time (from sample hi down to sample lo) with the same objects
+        ops[-1]["rev"] = draw(st.integers(0, 2)) == 0
+    case["ops"] = [dict(lo=0, hi=n, rev=draw(st.integers(0, 5)) == 0)] + ops + [dict(lo=0, hi=n)]
     case["clone_listeners"] = draw(st.sampled_from(["none", "copy", "deepcopy", "pickle", "deepcopy"]))
     # between two iterations the caller changes a listener in place (threshold, anomaly value, light type, frame)
     case["retune"] = dict(at=draw(st.integers(1, 3)), value=draw(go.uniform(-math.pi, math.pi)),
@@ -1256,6 +1258,9 @@ def check_reuse(case):
             retuned = True
         rng = (start + step * op["lo"], start + step * op["hi"], step)
         sub = dict(case, n=op["hi"] - op["lo"], n0=case["n"])
+        if op.get("rev"):
+            rng = (rng[1], rng[0], timedelta(seconds=-step.total_seconds()))
+            sub["range_as"] = "start-stop-step"
         items = run_stream(source, sub, listeners, rng=rng)
         base = op["lo"] * int(round(case["step"] * US))
         stream = [(it.us + base, it.label, it.lis) for it in items]
@@ -1270,7 +1275,7 @@ def check_reuse(case):
             raise Violation("reuse-differs", f"{what}: iteration #{k} over samples {op['lo']}..{op['hi']} with re-used listener "
                                              f"objects gives {len(stream)} items, fresh listeners give {len(ref)}; first "
                                              f"differences {diff}")
-        key = (op["lo"], op["hi"], retuned)
+        key = (op["lo"], op["hi"], retuned, bool(op.get("rev")))
         if key in seen and seen[key] != stream:
             raise Violation("reuse-not-repeatable", f"{what}: iteration #{k} over samples {op['lo']}..{op['hi']} differs from the "
                                                     f"earlier iteration over the same range")
@@ -1280,7 +1285,8 @@ def check_reuse(case):
     stats = dict(events=total, multi=False, skipped=0)
     return dict(nt=total > 0, cls=classes_of(case, stats) + [f"ops:{len(case['ops'])}"]
                 + ([f"listeners-cloned:{case['clone_listeners']}"] if case.get("clone_listeners", "none") != "none" else [])
-                + (["listener-changed-in-place"] if retuned else []))
+                + (["listener-changed-in-place"] if retuned else [])
+                + (["direction-changes-between-iterations"] if len({bool(o.get("rev")) for o in case["ops"]}) == 2 else []))
 
 
 # ------------------------------------------------------------------ the same listeners serve different orbits
